@@ -336,14 +336,24 @@ nonce cursors changed arbitrarily in between (bonding, slashing, governance, ear
 address class — possibly different classes for different claims), and the hash does not collide on the paths of the
 submitted claims (the named assumption; `executed_is_voted_ideal` discharges it for an injective hash). -/
 
+/-- the call structure of `Keeper.Attest` (REGENERATED table `attestTrySites`: every `TryAttestation(att, claim)` call
+reachable from `Attest` with the voter's claim in hand — which attestation, which claim object, under which guard): every
+call hands over a claim that hashes to the key of the attestation whose votes it tallies — the voter's claim with the
+attestation found under the voter's own key, or an attestation together with its own recorded claim -/
+theorem attest_sites_well_keyed : ∀ t ∈ attestTrySites, t.wellKeyed = true := by decide
+
+/-- … and there is such a call (the table is not empty because the translator lost track of `Attest`) -/
+theorem attest_sites_found : attestTrySites.any (fun t => t.att == .voted && t.claim == .voter) = true := by decide
+
 /-- **the property**: whenever the handler runs, the claim object it is given — the threshold-crossing voter's — has the
 same type and the same effect-relevant fields as the claim of EVERY vote tallied in that attestation -/
-theorem executed_is_voted {η : Type} [DecidableEq η] (H : Str → η) (ops : List Op)
+theorem executed_is_voted {η : Type} [DecidableEq η] (H : Str → η) (le : η → η → Bool) (ops : List Op)
     (valid : ∀ c ∈ Op.claims ops, ∃ k, c.valid k = true)
     (collisionFree : ∀ c₁ ∈ Op.claims ops, ∀ c₂ ∈ Op.claims ops, H c₁.path = H c₂.path → c₁.path = c₂.path) :
-    ∀ e ∈ (run (fun c => H c.path) {} ops).executed, ∀ v ∈ e.tallied, v.2.effect = e.claim.effect := by
+    ∀ e ∈ (run (fun c => H c.path) le {} ops).executed, ∀ v ∈ e.tallied, v.2.effect = e.claim.effect := by
   intro e he v hv
-  have inv := inv_run (fun c => H c.path) (fun c => c ∈ Op.claims ops) ops {} (inv_init _ _) (fun _ h => h)
+  have inv := inv_run attestTrySites attest_sites_well_keyed (fun c => H c.path) le (fun c => c ∈ Op.claims ops) ops {}
+    (inv_init _ _) (fun _ h => h)
   obtain ⟨pe, hv'⟩ := inv.2 e he
   obtain ⟨_, hk, pv⟩ := hv' v hv
   obtain ⟨k₁, v₁⟩ := valid _ pv
@@ -353,13 +363,14 @@ theorem executed_is_voted {η : Type} [DecidableEq η] (H : Str → η) (ops : L
 /-- two claims are tallied together (stored as votes of one attestation) only if they agree on the type and on every
 effect-relevant field; the claim the attestation records (the first voter's) agrees with them too — in every reachable
 state, observed or not -/
-theorem tallied_together_agree {η : Type} [DecidableEq η] (H : Str → η) (ops : List Op)
+theorem tallied_together_agree {η : Type} [DecidableEq η] (H : Str → η) (le : η → η → Bool) (ops : List Op)
     (valid : ∀ c ∈ Op.claims ops, ∃ k, c.valid k = true)
     (collisionFree : ∀ c₁ ∈ Op.claims ops, ∀ c₂ ∈ Op.claims ops, H c₁.path = H c₂.path → c₁.path = c₂.path) :
-    ∀ a ∈ (run (fun c => H c.path) {} ops).atts, ∀ v ∈ a.votes,
+    ∀ a ∈ (run (fun c => H c.path) le {} ops).atts, ∀ v ∈ a.votes,
       v.2.effect = a.claim.effect ∧ ∀ w ∈ a.votes, v.2.effect = w.2.effect := by
   intro a ha v hv
-  have inv := inv_run (fun c => H c.path) (fun c => c ∈ Op.claims ops) ops {} (inv_init _ _) (fun _ h => h)
+  have inv := inv_run attestTrySites attest_sites_well_keyed (fun c => H c.path) le (fun c => c ∈ Op.claims ops) ops {}
+    (inv_init _ _) (fun _ h => h)
   obtain ⟨⟨_, hc, pc⟩, hvs⟩ := inv.1 a ha
   obtain ⟨_, hk, pv⟩ := hvs v hv
   obtain ⟨k₁, v₁⟩ := valid _ pv
@@ -374,29 +385,29 @@ theorem tallied_together_agree {η : Type} [DecidableEq η] (H : Str → η) (op
 `SavePendingExecuteClaim` and run later from the stored copy) is a claim object an observed attestation handed to the
 handler, so it has the type and every effect-relevant field of every vote tallied for it — the effect applied on fxcore
 is the one the quorum voted for, whenever and by whomever `ExecuteClaim` is called -/
-theorem ran_is_voted {η : Type} [DecidableEq η] (H : Str → η) (ops : List Op)
+theorem ran_is_voted {η : Type} [DecidableEq η] (H : Str → η) (le : η → η → Bool) (ops : List Op)
     (valid : ∀ c ∈ Op.claims ops, ∃ k, c.valid k = true)
     (collisionFree : ∀ c₁ ∈ Op.claims ops, ∀ c₂ ∈ Op.claims ops, H c₁.path = H c₂.path → c₁.path = c₂.path) :
-    ∀ c ∈ (run (fun c => H c.path) {} ops).ran,
-      ∃ e ∈ (run (fun c => H c.path) {} ops).executed, e.claim = c ∧ ∀ v ∈ e.tallied, v.2.effect = c.effect := by
+    ∀ c ∈ (run (fun c => H c.path) le {} ops).ran,
+      ∃ e ∈ (run (fun c => H c.path) le {} ops).executed, e.claim = c ∧ ∀ v ∈ e.tallied, v.2.effect = c.effect := by
   intro c hc
-  obtain ⟨e, he, hec⟩ := (pendInv_run (fun c => H c.path) ops {} pendInv_init).2 c hc
-  exact ⟨e, he, hec, fun v hv => hec ▸ executed_is_voted H ops valid collisionFree e he v hv⟩
+  obtain ⟨e, he, hec⟩ := (pendInv_run attestTrySites (fun c => H c.path) le ops {} pendInv_init).2 c hc
+  exact ⟨e, he, hec, fun v hv => hec ▸ executed_is_voted H le ops valid collisionFree e he v hv⟩
 
 /-- the stored copy waiting for `ExecuteClaim` under an event nonce is such a claim object, of that nonce -/
-theorem pending_is_voted {η : Type} [DecidableEq η] (H : Str → η) (ops : List Op)
+theorem pending_is_voted {η : Type} [DecidableEq η] (H : Str → η) (le : η → η → Bool) (ops : List Op)
     (valid : ∀ c ∈ Op.claims ops, ∃ k, c.valid k = true)
     (collisionFree : ∀ c₁ ∈ Op.claims ops, ∀ c₂ ∈ Op.claims ops, H c₁.path = H c₂.path → c₁.path = c₂.path) :
-    ∀ p ∈ (run (fun c => H c.path) {} ops).pending, p.2.nonce = p.1 ∧
-      ∃ e ∈ (run (fun c => H c.path) {} ops).executed, e.claim = p.2 ∧ ∀ v ∈ e.tallied, v.2.effect = p.2.effect := by
+    ∀ p ∈ (run (fun c => H c.path) le {} ops).pending, p.2.nonce = p.1 ∧
+      ∃ e ∈ (run (fun c => H c.path) le {} ops).executed, e.claim = p.2 ∧ ∀ v ∈ e.tallied, v.2.effect = p.2.effect := by
   intro p hp
-  obtain ⟨hn, e, he, hec⟩ := (pendInv_run (fun c => H c.path) ops {} pendInv_init).1 p hp
-  exact ⟨hn, e, he, hec, fun v hv => hec ▸ executed_is_voted H ops valid collisionFree e he v hv⟩
+  obtain ⟨hn, e, he, hec⟩ := (pendInv_run attestTrySites (fun c => H c.path) le ops {} pendInv_init).1 p hp
+  exact ⟨hn, e, he, hec, fun v hv => hec ▸ executed_is_voted H le ops valid collisionFree e he v hv⟩
 
 /-- with an injective hash (the path itself as the key) no assumption is left -/
-theorem executed_is_voted_ideal (ops : List Op) (valid : ∀ c ∈ Op.claims ops, ∃ k, c.valid k = true) :
-    ∀ e ∈ (run (fun c => c.path) {} ops).executed, ∀ v ∈ e.tallied, v.2.effect = e.claim.effect :=
-  executed_is_voted id ops valid (fun _ _ _ _ h => h)
+theorem executed_is_voted_ideal (le : Str → Str → Bool) (ops : List Op) (valid : ∀ c ∈ Op.claims ops, ∃ k, c.valid k = true) :
+    ∀ e ∈ (run (fun c => c.path) le {} ops).executed, ∀ v ∈ e.tallied, v.2.effect = e.claim.effect :=
+  executed_is_voted id le ops valid (fun _ _ _ _ h => h)
 
 /-! ## the three formats of commit 6774338 are not injective (recorded counterexamples, replayed by the harness) -/
 
@@ -455,11 +466,40 @@ a history in which the executed event differs from a tallied vote (so `executed_
 `anyClaim_path_injective` says about the generated paths) -/
 theorem legacy_executed_not_voted :
     (∀ c ∈ Op.claims legacyOps, c.valid .eth = true)
-    ∧ ∃ e ∈ (run legacyKey {} legacyOps).executed, ∃ v ∈ e.tallied, v.2.effect ≠ e.claim.effect :=
+    ∧ ∃ e ∈ (run legacyKey (fun _ _ => true) {} legacyOps).executed, ∃ v ∈ e.tallied, v.2.effect ≠ e.claim.effect :=
   ⟨by decide +kernel,
    ⟨{ claim := .bc { wCall with Memo := memoSendCallTo, TxOrigin := ethB },
       tallied := [(0, .bc wCall), (1, .bc { wCall with Memo := memoSendCallTo, TxOrigin := ethB })] },
     by decide +kernel, (0, .bc wCall), by decide +kernel, by decide +kernel⟩⟩
+
+/-! ## an ill-keyed call structure: re-tallying the other open attestations with the VOTER's claim -/
+
+/-- `Attest` followed by "re-tally every open attestation of the nonce", handing each stored attestation the claim of the
+oracle that is voting right now -/
+def retallySites : List TrySite :=
+  [{ att := .voted, claim := .voter, inLoop := false, fn := "Attest", guard := "" },
+   { att := .stored, claim := .voter, inLoop := true, fn := "retry", guard := "" }]
+
+/-- oracle 0 (power 10 of 30) votes for the call with the empty memo; its power then grows to 100 of 120, so its recorded
+vote alone is above the threshold, but no vote arrives for it; oracle 1 (power 10) votes for a conflicting call -/
+def retallyOps : List Op :=
+  [.setPower 0 (some 10), .setPower 1 (some 10), .setPower 2 (some 10), .setTotal 30,
+   .vote 0 (.bc wCall) false,
+   .setPower 0 (some 100), .setTotal 120,
+   .vote 1 (.bc { wCall with Memo := memoSendCallTo, TxOrigin := ethB }) false]
+
+/-- with that call structure — even with an injective key — the quorum collected for one event executes another: the
+hypothesis `attest_sites_well_keyed` of `executed_is_voted` is what rules this out -/
+theorem retally_with_voter_claim_not_voted :
+    (∀ c ∈ Op.claims retallyOps, c.valid .eth = true)
+    ∧ ∃ e ∈ (runWith retallySites (fun c => c.path) (fun _ _ => true) {} retallyOps).executed,
+        ∃ v ∈ e.tallied, v.2.effect ≠ e.claim.effect :=
+  ⟨by decide +kernel,
+   ⟨{ claim := .bc { wCall with Memo := memoSendCallTo, TxOrigin := ethB }, tallied := [(0, .bc wCall)] },
+    by decide +kernel, (0, .bc wCall), by decide +kernel, by decide +kernel⟩⟩
+
+/-- the call structure found in the source leaves the first attestation open in the same history -/
+example : (run (fun c => c.path) (fun _ _ => true) {} retallyOps).executed = [] := by decide +kernel
 
 /-! ## non-vacuity: the hypotheses are satisfiable, and the generated paths separate the recorded witnesses -/
 
@@ -477,12 +517,12 @@ example : ({ EventNonce := 7, BlockHeight := 9, BatchNonce := 3, TokenContract :
 
 /-- with the generated paths the same votes land in two attestations, nothing is observed after two votes, and the third
 oracle's vote executes the claim that two oracles voted for -/
-example : (run (fun c => c.path) {} legacyOps).executed = [] := by decide +kernel
-example : ((run (fun c => c.path) {} (legacyOps ++ [.vote 2 (.bc wCall) false])).executed.map (·.tallied.map (·.1))) = [[0, 2]] := by
+example : (run (fun c => c.path) (fun _ _ => true) {} legacyOps).executed = [] := by decide +kernel
+example : ((run (fun c => c.path) (fun _ _ => true) {} (legacyOps ++ [.vote 2 (.bc wCall) false])).executed.map (·.tallied.map (·.1))) = [[0, 2]] := by
   decide +kernel
 /-- … is stored for `ExecuteClaim`, which then runs exactly that claim -/
-example : (run (fun c => c.path) {} (legacyOps ++ [.vote 2 (.bc wCall) false])).pending.map (·.1) = [1] := by decide +kernel
-example : (run (fun c => c.path) {} (legacyOps ++ [.vote 2 (.bc wCall) false, .execute 1 false])).ran = [.bc wCall] := by
+example : (run (fun c => c.path) (fun _ _ => true) {} (legacyOps ++ [.vote 2 (.bc wCall) false])).pending.map (·.1) = [1] := by decide +kernel
+example : (run (fun c => c.path) (fun _ _ => true) {} (legacyOps ++ [.vote 2 (.bc wCall) false, .execute 1 false])).ran = [.bc wCall] := by
   decide +kernel
 
 end FxVerif.Props.C03
